@@ -2,6 +2,7 @@
   Properties/TablesContainer.lean — obligations against the generated tables (Gen/Tables.lean), closed by evaluation.
 -/
 import Properties.TablesCommon
+import Model.Container
 
 namespace Tables
 
@@ -19,5 +20,13 @@ theorem block_codecs_dispatch :
     disp? "_read_py.BLOCK_READERS" "bzip2" = some "bzip2_read_block" ∧
     disp? "_read_py.BLOCK_READERS" "xz" = some "xz_read_block" := by
   decide
+
+/-- `_is_appendable` of the current source, run in isolation over its whole decision domain by the translator,
+    is the model's decision table -/
+theorem appendable_table :
+    Gen.appendableTable.all (fun (s, p, o, r, out) =>
+      (match Container.isAppendable ⟨s, if p then 5 else 0, o, r⟩ with
+        | .ok true => "true" | .ok false => "false" | .error .value => "ValueError" | .error _ => "other") == out) = true ∧
+    Gen.appendableTable.length = 24 := by decide
 
 end Tables
